@@ -130,7 +130,7 @@ pub open spec fn scored(h: Hit, r: &Record, query: &TextRef) -> bool {
     tm_some(&h.title, query, (h.rmatches, h.qmatches)) && tm_first(&h.title, query, (h.rmatches, h.qmatches)) && tm_fin(query, (h.rmatches, h.qmatches)) && tm_c14(&h.title, query, (h.rmatches, h.qmatches))
     && (query.words@.len() == 0 ==> h.rmatches@.len() == 0) && slots_ok(h) && h.id == r.id && h.rating == r.rating
     && h.title.words@ == r.title.words@ && h.title.source@ == r.title.source@ && h.title.chars@ == r.title.chars@ && h.title.classes@ == r.title.classes@
-    && matches_for_text(h.rmatches@, &h.title) && matches_ok(h.rmatches@) && matches_ok(h.qmatches@)
+    && matches_for_text(h.rmatches@, &h.title) && matches_ok(h.rmatches@) && matches_ok(h.qmatches@) && (h.rmatches@.len() >= 1 ==> h.qmatches@.len() >= 1)
 }
 // the title returned for hit `h` under the markers `d`
 pub open spec fn shown(h: Hit, l: Seq<char>, r: Seq<char>) -> Seq<char> { render_all(h.title.source@, h.title.words@, h.rmatches@, l, r).filter(not_nul()) }
